@@ -73,7 +73,25 @@ pub enum Outcome {
     AbortAfterStatus(u8),
     /// system info reports another device id
     WrongSerial,
+    /// 06 1E <code> followed by further data objects of the abort packet (`ABORT_EXTRAS[i]`): the currency the terminal
+    /// expected, a TLV container with an extended error code / text, a receipt number. The code comes first in every form.
+    AbortExtended(u8, usize),
 }
+/// data a terminal may append to the result code of an abort (ZVT 06 1E: result code, then optional objects)
+pub const ABORT_EXTRAS: [&[u8]; 11] = [
+    // ZVT 2.2.9: `06 1E xx <result code> [<cc>] [06 <TLV>]`, the currency code untagged behind code 6f
+    &[0x09, 0x78],
+    &[0x09, 0x78, 0x06, 0x05, 0x1f, 0x16, 0x02, 0x00, 0x2a],
+    &[0x09, 0x78, 0x06, 0x0f, 0x1f, 0x16, 0x01, 0x07, 0x1f, 0x17, 0x07, b'c', b'u', b'r', b'r', b'?', b'?', b'?'],
+    &[0x49, 0x09, 0x78],
+    &[0x06, 0x05, 0x1f, 0x16, 0x02, 0x00, 0x2a],
+    &[0x49, 0x09, 0x78, 0x06, 0x05, 0x1f, 0x16, 0x02, 0x00, 0x2a],
+    &[0x06, 0x0c, 0x1f, 0x17, 0x09, b'w', b'r', b'o', b'n', b'g', b' ', b'c', b'u', b'r'],
+    &[0x49, 0x09, 0x78, 0x06, 0x0b, 0x1f, 0x16, 0x08, 0, 0, 0, 0, 0, 0, 0, 0x2a],
+    &[0x06, 0x00],
+    &[0x87, 0x00, 0x17, 0x49, 0x09, 0x78],
+    &[0x49, 0x09, 0x78, 0x06, 0x04, 0x1f, 0x16, 0x01, 0x07],
+];
 #[derive(Clone, Debug, PartialEq, serde::Serialize, serde::Deserialize)]
 pub struct Directive {
     pub outcome: Outcome,
@@ -366,6 +384,13 @@ fn respond(g: &mut Sim, kind: Kind, apdu: &[u8], d: &Directive) -> Vec<Vec<u8>> 
     }
     if let Outcome::Abort(c) = d.outcome {
         r.push(abort_packet(c));
+        return r;
+    }
+    if let Outcome::AbortExtended(c, i) = d.outcome {
+        let extra = ABORT_EXTRAS[i % ABORT_EXTRAS.len()];
+        let mut p = vec![0x06, 0x1e, 1 + extra.len() as u8, c];
+        p.extend_from_slice(extra);
+        r.push(p);
         return r;
     }
     if let Outcome::AbortWithReceipt(c, rc) = d.outcome {
